@@ -364,9 +364,9 @@ def predicates(case, vkind):
 
 def run(tier, seed):
     from vlib.shards import run_jobs
-    nf = 8000 if tier == "quick" else 120000
-    ni = 4000 if tier == "quick" else 60000
-    nr = 48 if tier == "quick" else 640
+    nf = 8000 if tier == "quick" else 480000
+    ni = 4000 if tier == "quick" else 240000
+    nr = 48 if tier == "quick" else 2560
     jobs = [{"module": "props.c15", "func": "fidelity_shard", "kwargs": {"seed": common.derive_seed(seed, ID, "f", i), "n": nf // 4}} for i in range(4)]
     jobs += [{"module": "props.c15", "func": "isolation_shard", "kwargs": {"seed": common.derive_seed(seed, ID, "i", i), "n": ni // 4}} for i in range(4)]
     jobs += [{"module": "props.c15", "func": "real_shard", "kwargs": {"seed": common.derive_seed(seed, ID, "r", i), "n": nr // 8}} for i in range(8)]
